@@ -795,6 +795,10 @@ func (x *Exec) stub(st *State, f *Frame, in *ssa.Call, fn *ssa.Function, name st
 		if st.pools == nil {
 			st.pools = map[int][]Val{}
 		}
+		if st.greads == nil {
+			st.greads = map[string]bool{}
+		}
+		st.greads[lbl] = true
 		if name == "(*sync.Pool).Put" {
 			st.pools[pp.obj] = append(st.pools[pp.obj], args[1])
 			x.ret(f, in, nil)
